@@ -12,9 +12,11 @@ TREE_NS = [0x9F, 0xAC, 0x70, 0xB5, 0x0C, 0xA1, 0x4E, 0xFC, 0x4E, 0x91, 0xC8, 0x3
            0x8B, 0x5A, 0xAD, 0x8B, 0x58, 0x81, 0xBF, 0xC0, 0xAD, 0xB5, 0xEF, 0x38, 0xA3, 0x27, 0x5B, 0x9C]
 
 
-def closure_seq(ctx, term):
-    """encode sequence [(class, source sig)] of the immediately-called closure a
-    term was produced by"""
+def closure_seq(ctx, term, host=None):
+    """encode sequence [(class, source sig)] that produced the bytes `term` stands for: the encode
+    calls of the immediately-called closure it comes from, or (closure spliced into `host` by the
+    normaliser) the encode calls of `host` that write into the buffer allocation `term` derives from;
+    second result: the source terms"""
     for s in subterms(term):
         if isinstance(s, tuple) and s[0] == "closure":
             b = ctx.crate.body(s[1])
@@ -26,7 +28,45 @@ def closure_seq(ctx, term):
                 if e.kind == "encode":
                     out.append((e.cls, term_sig(unwrap_ovf(fa.arg_origin(e.site, 0)))))
             return out, fa
+    if host is not None:
+        allocs = set(x[1] for x in subterms(term) if isinstance(x, tuple) and len(x) == 4 and x[0] == "call" and x[2].split("::")[-1] in ("from_elem", "with_capacity", "new"))
+        out, srcs = [], []
+        for e in seq(ctx, host):
+            if e.kind != "encode":
+                continue
+            buf = host.arg_origin(e.site, 1)
+            if any(isinstance(x, tuple) and len(x) == 4 and x[0] == "call" and x[1] in allocs for x in subterms(buf)):
+                src = unwrap_ovf(host.arg_origin(e.site, 0))
+                out.append((e.cls, term_sig(src)))
+                srcs.append(src)
+        if out:
+            return out, srcs
     return None, None
+
+
+def tuple_field_of(fa, operand):
+    """index k if the operand is (a copy / reference of) field k of a local that is assigned tuple
+    aggregates — `let (a, b) = if c { (x, y) } else { (y, x) }` — else None.  Independent of names."""
+    p = op_place(operand)
+    for _ in range(10):
+        if p is None:
+            return None
+        fl = [e for e in p["p"] if isinstance(e, dict) and "f" in e]
+        if fl:
+            ds = [d for d in fa.body.defs.get(p["l"], []) if not d[3]["p"] and d[0] == "assign" and d[4]["k"] == "agg" and d[4]["kind"] == "tuple"]
+            if ds:
+                return fl[0]["f"]
+        ds = [d for d in fa.body.defs.get(p["l"], []) if not d[3]["p"]]
+        if len(ds) != 1 or ds[0][0] != "assign":
+            return None
+        rv = ds[0][4]
+        if rv["k"] in ("ref", "copyderef"):
+            p = rv["place"]
+        elif rv["k"] in ("use", "cast"):
+            p = op_place(rv["op"])
+        else:
+            return None
+    return None
 
 
 def updates(fa):
@@ -68,7 +108,7 @@ def r1(ctx):
         why = "%d update calls" % len(ups)
         if good:
             a = [fa.arg_origin(s, 1) for s in ups]
-            cs, _ = closure_seq(ctx, a[1])
+            cs, _ = closure_seq(ctx, a[1], fa)
             good = strip(a[0]) == ("const", "crypto::hash::LEAF_TYPE") and cs == [(("fixedle", 8), "as_fixed_width(len(data))")] and strip(a[2]) == ("param", "data") and all(fa.dominates(x, y) for x, y in zip(ups, ups[1:]))
             why = "updates: %s / %s / %s" % (term_str(a[0])[:30], cs, term_str(a[2])[:30])
         ctx.check(P, rule, "leaf pre-image = [LEAF_TYPE][u64le len(data)][data]", good, "type byte, 8-byte little-endian size, data", "Hash::data feeds %s" % why, key="C05|C05.R1|Hash::data|pre-image")
@@ -86,24 +126,30 @@ def r1(ctx):
         why = "%d update calls" % len(ups)
         if good:
             a = [fa.arg_origin(s, 1) for s in ups]
-            cs, cfa = closure_seq(ctx, a[1])
-            # the summed size
+            cs, srcs = closure_seq(ctx, a[1], fa)
+            # the summed size: the value encoded is left.length + right.length (either order)
             ln = None
-            for l in fa.body.locals:
-                if l["name"] == "len":
-                    ds = [d for d in fa.body.defs.get(l["i"], []) if not d[3]["p"]]
-                    if ds:
-                        ln = unwrap_ovf(fa.origin_local(l["i"], ds[0][1], (ds[0][2] or 0) + 1))
-            sum_ok = ln is not None and ln[0] == "bin" and ln[1] == "Add" and all(strip(x)[0] == "field" and strip(x)[2] == "length" for x in (ln[2], ln[3])) and term_sig(ln[2]) != term_sig(ln[3]) or (
-                ln is not None and ln[0] == "bin" and ln[1] == "Add" and all("length" in term_str(x) for x in (ln[2], ln[3])))
+            if isinstance(srcs, list) and srcs and srcs[0][0] == "call" and srcs[0][3]:
+                ln = unwrap_ovf(strip(srcs[0][3][0]))
+            else:
+                for l in fa.body.locals:
+                    if l["name"] == "len":
+                        ds = [d for d in fa.body.defs.get(l["i"], []) if not d[3]["p"]]
+                        if ds:
+                            ln = unwrap_ovf(fa.origin_local(l["i"], ds[0][1], (ds[0][2] or 0) + 1))
+            def len_of_child(x):
+                rs = roots(x)
+                return bool(rs) and all(r[0] == "field" and r[2] == "length" and strip(r[1]) in (("param", "left"), ("param", "right")) for r in rs) and \
+                    {strip(r[1])[1] for r in rs} == {"left", "right"}
+            sum_ok = ln is not None and ln[0] == "bin" and ln[1] == "Add" and len_of_child(ln[2]) and len_of_child(ln[3]) and term_sig(ln[2]) != term_sig(ln[3])
             h1 = [s for s, t in fa.calls() if (t.get("resolved") or "").endswith("merkle_tree_stream::Node>::hash")]
             order = []
             for u in ups[2:]:
                 o = fa.arg_origin(u, 1)
                 hs = [s for s in h1 if s in call_root_bb(o)]
-                order.append(var_of(fa, fa.blocks[hs[0]].term["args"][0], hs[0]) if hs else None)
-            good = strip(a[0]) == ("const", "crypto::hash::PARENT_TYPE") and cs == [(("fixedle", 8), "as_fixed_width(len)")] and sum_ok and order == ["node1", "node2"]
-            why = "type %s, size %s of %s, then hashes of %s" % (term_str(a[0])[:30], cs, term_str(ln)[:80] if ln else None, order)
+                order.append(tuple_field_of(fa, fa.blocks[hs[0]].term["args"][0]) if hs else None)
+            good = strip(a[0]) == ("const", "crypto::hash::PARENT_TYPE") and cs is not None and [c_[0] for c_ in cs] == [("fixedle", 8)] and sum_ok and order == [0, 1]
+            why = "type %s, size %s of %s, then hashes of tuple fields %s" % (term_str(a[0])[:30], cs, term_str(ln)[:80] if ln else None, order)
         ctx.check(P, rule, "parent pre-image = [PARENT_TYPE][u64le left.len+right.len][hash1][hash2]", good, "type byte, summed size, both child hashes", "Hash::parent feeds %s" % why, key="C05|C05.R1|Hash::parent|pre-image")
         # node1 is the node with the smaller index
         sw = list(bool_switches(fa, lambda o: o[0] == "bin" and o[1] in ("Le", "Lt", "Ge", "Gt") and {path_of(strip(o[2])), path_of(strip(o[3]))} == {"left.index", "right.index"}))
@@ -132,14 +178,16 @@ def r1(ctx):
         if good:
             body = max(loops, key=lambda l: len(l[1]))[1]
             a = [fa.arg_origin(s, 1) for s in ups]
-            cs, _ = closure_seq(ctx, a[2])
+            cs, srcs = closure_seq(ctx, a[2], fa)
             r2, r3 = strip(a[2]), strip(a[3])
             rng2 = term_sig(r2[3][1]) if r2[0] == "call" else ""
             rng3 = term_sig(r3[3][1]) if r3[0] == "call" else ""
             hs = strip(a[1])
+            node = term_sig(hs[3][0]) if hs[0] == "call" and hs[3] else "?"
             good = (strip(a[0]) == ("const", "crypto::hash::ROOT_TYPE") and ups[0] not in body and all(u in body for u in ups[1:])
                     and hs[0] == "call" and hs[2].endswith("::hash") and "next(roots)" in term_sig(hs)
-                    and cs == [(("fixedle", 8), "as_fixed_width(index(node))"), (("fixedle", 8), "as_fixed_width(len(node))")]
+                    and cs in ([(("fixedle", 8), "as_fixed_width(index(node))"), (("fixedle", 8), "as_fixed_width(len(node))")],
+                               [(("fixedle", 8), "as_fixed_width(index(%s))" % node), (("fixedle", 8), "as_fixed_width(len(%s))" % node)])
                     and rng2 == "RangeTo::RangeTo{end: 8}" and rng3 == "RangeFrom::RangeFrom{start: 8}"
                     and fa.dominates(ups[1], ups[2]) and fa.dominates(ups[2], ups[3]))
             why = "type %s; per root: %s, %s[%s], [%s]" % (term_str(a[0])[:20], term_sig(hs)[:40], cs, rng2, rng3)
@@ -173,7 +221,7 @@ def r3(ctx):
     if not need(ctx, P, rule, SIGNABLE_TREE, fa):
         return
     rets = [t for _, _, t in ret_assigns(fa)]
-    cs, _ = closure_seq(ctx, rets[0]) if rets else (None, None)
+    cs, _ = closure_seq(ctx, rets[0], fa) if rets else (None, None)
     want = [(("fixed", 32), "TREE"), (("fixed", 32), "ok(as_array(hash))"), (("fixedle", 8), "as_fixed_width(length)"), (("fixedle", 8), "as_fixed_width(fork)")]
     ctx.check(P, rule, "signable = [TREE namespace][hash:32][u64le length][u64le fork]", cs == want, "namespace, root hash, length, fork in that order", "signable_tree encodes %s" % cs, key="C05|C05.R3|signable_tree|layout")
 
